@@ -2782,3 +2782,32 @@ package go_clipper2
 //@   loop 0 step [open-records-never-enter-the-tree] (old(i) < len(c.outrecList) && old(c.outrecList[i].isOpen) && old(len(c.outrecList)) == len(c.outrecList)) ==> c.outrecList[old(i)].polypath == old(c.outrecList[i].polypath)
 //@   loop 0 step [closed-records-never-enter-the-open-solution] (old(i) < len(c.outrecList) && !old(c.outrecList[i].isOpen)) ==> len(*solutionOpen) == old(len(*solutionOpen))
 //@   loop 0 step [records-are-visited-in-list-order] i == old(i) + 1
+
+// path1ContainsPath2 (C06): the points of the second path are classified against the first path, one by one
+//@ func RectClip64.path1ContainsPath2
+//@   props C06 C03
+//@   nosafety
+//@   assumes domPath(path1, 29) && domPath(path2, 29)
+//@   loop 0 step [each-point-of-the-second-path-is-classified-against-the-first-path] ioCount == old(ioCount) + ite(PointInPolygon(path2[old(_i)], path1) == IsInside, -1, ite(PointInPolygon(path2[old(_i)], path1) == IsOutside, 1, 0))
+//@   loop 0 invariant [nothing-classified-nothing-counted] _i == 0 ==> ioCount == 0
+//@   ensures [nothing-to-classify-counts-as-contained] len(path2) == 0 ==> result
+
+//@ func clipperD.AddPathsWithScaleFunc
+//@   props C07 C12 C03
+//@   nosafety
+//@   opaque clipperBase.addPaths
+//@   assert after call:clipperBase.addPaths#0 [type-and-open-flag-are-passed-on-unchanged] arg1 == polytype && arg2 == isOpen
+
+//@ func clipperBase.addReuseableData
+//@   props C12 C03
+//@   nosafety
+//@   assumes reuseableData != nil && forall(k, 0, len(reuseableData.minimaList), reuseableData.minimaList[k] != nil)
+//@   loop 0 invariant [one-new-minimum-per-reused-minimum] len(c.minimaList) == old(len(c.minimaList)) + _i && !c.isSortedMinimaList && forall(k, 0, old(len(c.minimaList)), c.minimaList[k] == old(c.minimaList)[k])
+//@   loop 0 invariant [open-paths-are-noticed] exists(k, 0, _i, reuseableData.minimaList[k].IsOpen) ==> c.hasOpenPaths
+//@   ensures [nothing-reused-nothing-changes] len(reuseableData.minimaList) == 0 ==> (len(c.minimaList) == old(len(c.minimaList)) && c.isSortedMinimaList == old(c.isSortedMinimaList))
+//@   ensures [the-list-must-be-sorted-again] len(reuseableData.minimaList) > 0 ==> (!c.isSortedMinimaList && len(c.minimaList) == old(len(c.minimaList)) + len(reuseableData.minimaList))
+
+//@ func uncoupleEdge
+//@   props C06 C03
+//@   nosafety
+//@   ensures [the-point-is-on-no-edge-list-afterwards] isnil(op.edge)
